@@ -73,7 +73,7 @@ PROPS = {
         "level_note": "net.ParseIP and strconv.Atoi are section variables (two hypotheses on ParseIP, checked per case).",
     },
     "C01": {
-        "jobs": [sess_job(140, 2500, world=True)],
+        "jobs": [sess_job(120, 2500, world=True), {"cmd": "hostile", "quick": 150, "thorough": 6000, "timeout": 3000}],
         "rule": SESS_RULE + "; every 4th session is replayed against a world with different surroundings of the root (non-interference oracle)",
         "assumptions": SESS_ASSUME,
         "partial": ["the spellings of the root (relative, '.', trailing slash, via flag/env/ini) are decided with C19 on the real binary; "
@@ -107,7 +107,8 @@ PROPS = {
                       "C05_refused, C05_reads_pure over the session model.",
     },
     "C06": {
-        "jobs": [sess_job(140, 2500, keep_ops=["open_dir", "dir_entry", "dir_entry_v2", "read_dir", "stat", "dir_size"])],
+        "jobs": [sess_job(120, 2500, keep_ops=["open_dir", "dir_entry", "dir_entry_v2", "read_dir", "stat", "dir_size"]),
+                 {"cmd": "links", "quick": 150, "thorough": 5000, "timeout": 3000}],
         "rule": SESS_RULE, "assumptions": SESS_ASSUME,
         "partial": ["symlinks (resolved / dangling omitted) are outside the Coq model and judged by the direct oracle only"],
         "level_text": "Theorems C06_opendir, C06_bulk (READ_DIR = one record per statable entry, a permutation of the directory, true fields), "
@@ -150,7 +151,8 @@ PROPS = {
                       "world, every handle opened for the connection is closed when it ends), over the session model with explicit open/close counters.",
     },
     "C17": {
-        "jobs": [sess_job(100, 1500, keep_ops=["open_file", "read_cd"])],
+        "jobs": [sess_job(60, 1500, keep_ops=["open_file", "read_cd"]),
+                 {"cmd": "cdsess", "quick": 8, "thorough": 400, "timeout": 6000, "project": sess_project(keep_ops=["open_file", "read_cd"])}],
         "rule": SESS_RULE, "assumptions": SESS_ASSUME, "partial": [],
         "level_text": "Theorems C17_args, C17_read (exact user-data slices for every sector size, image, start and count in range), C17_short, C17_detect "
                       "(the detected size is the first candidate whose 16*S+24 position carries either signature; candidates/magics regenerated from the source).",
